@@ -23,7 +23,7 @@ func init() {
 	Register("C21", &Info{
 		Run:   runC21,
 		Quick: 2500, Thor: 250000,
-		Rule: "a world = one fingerprint advertising compress_certificate (parrots by stratum, generated specs with each algorithm set) against the reference server, which sends its Certificate message as CompressedCertificate with an advertised algorithm (brotli, zlib, zstd) encoded by the real encoders at a drawn level, with a drawn flush/block structure (single block, flush every n bytes, stored blocks, several concatenated zstd frames) and a drawn chain (small ECDSA leaf, RSA leaf, a 16 kB leaf with 400 SANs) carrying a drawn OCSP staple; narrowing stratum: the hello is built, the advertised list is narrowed, the server answers with the dropped algorithm; fault stratum: declared uncompressed_length shorter or longer than the real one, stream truncated, byte flipped (at a drawn position, or directed into the staple where the stream carries it verbatim), trailing garbage appended; oracle: a valid encoding => the handshake completes, data echoes and PeerCertificates equal the chain the server compressed; an invalid one => the client aborts (never completes with any chain) and the server sees the bad_certificate alert; non-trivial = a CompressedCertificate message was processed by the client; distinct = (fingerprint, algorithm, encoder settings, chain, fault)",
+		Rule: "a world = one fingerprint advertising compress_certificate (parrots by stratum, generated specs with each algorithm set) against the reference server (optionally requesting a client certificate, so that a CertificateRequest precedes it in the transcript), which sends its Certificate message as CompressedCertificate with an advertised algorithm (brotli, zlib, zstd) encoded by the real encoders at a drawn level, with a drawn flush/block structure (single block, flush every n bytes, stored blocks, several concatenated zstd frames) and a drawn chain (small ECDSA leaf, RSA leaf, a 16 kB leaf with 400 SANs) carrying a drawn OCSP staple; narrowing stratum: the hello is built, the advertised list is narrowed, the server answers with the dropped algorithm; fault stratum: declared uncompressed_length shorter or longer than the real one, stream truncated, byte flipped (at a drawn position, or directed into the staple where the stream carries it verbatim), trailing garbage appended; oracle: a valid encoding => the handshake completes, data echoes and PeerCertificates equal the chain the server compressed; an invalid one => the client aborts (never completes with any chain) and the server sees the bad_certificate alert; non-trivial = a CompressedCertificate message was processed by the client; distinct = (fingerprint, algorithm, encoder settings, chain, fault)",
 		Assumptions: []string{"'any valid compressed encoding' is sampled through the real encoders' levels, flush points and framing; hand-crafted exotic bit streams are not generated",
 			"trailing bytes after a complete compressed stream count as a decompressed-length mismatch only when they decode to additional output (declared length shorter than the actual output)"},
 		Real: []string{"utls client decompression path from /repo", "brotli / zlib / zstd libraries on both sides"},
@@ -226,9 +226,19 @@ func runC21(c *Ctx) {
 		// a second valid stream's worth of data appended after the first stream ends
 		cfg.Byz.CertCompCorrupt = func(s []byte) []byte { return append(append([]byte(nil), s...), s...) }
 	}
+	// client authentication: a CertificateRequest precedes the (compressed) Certificate in the
+	// server's flight; the client may or may not have a certificate to answer with
+	cauth := ch.Pick(4, "client-auth") // 0,1: none; 2: requested, client has none; 3: requested, client sends one
+	ccfg := negCfg()
+	if cauth >= 2 {
+		cfg.ClientAuth = refsrv.RequestClientCert
+		if cauth == 3 {
+			ccfg.Certificates = []tls.Certificate{Cert("ecdsa").U}
+		}
+	}
 	w := c.NewWorld(simrt.Config{})
-	c.R.Class = fmt.Sprintf("%s/%s alg=%d %s chain=%s fault=%s", kind, idi.Name, alg, cdesc, chain, fault)
-	sp := &ConnSpec{ID: idi.ID, Spec: freshSpec(newSpec), CCfg: negCfg(), Peer: PeerRef, RefCfg: cfg, Payload: [][]byte{[]byte("ping")},
+	c.R.Class = fmt.Sprintf("%s/%s alg=%d %s chain=%s fault=%s cauth=%d", kind, idi.Name, alg, cdesc, chain, fault, cauth)
+	sp := &ConnSpec{ID: idi.ID, Spec: freshSpec(newSpec), CCfg: ccfg, Peer: PeerRef, RefCfg: cfg, Payload: [][]byte{[]byte("ping")},
 		Setup: func(l *simnet.Link) { l.Frag = ch.Bool(40, "frag") }}
 	if narrowed {
 		sp.Prep = func(u *tls.UConn) error {
